@@ -91,6 +91,25 @@ CHECKS = {
         "protected inside a context are re-tagged, not transformed (by design) and are excluded from the restoration claim. "
         "DensityMatrixEvolution/StateVectorEvolution/operator-form tensors are covered by the action laws only.",
    design="7/C04", technique="Coq proof (state-machine invariant by induction over program trees; ring algebra for the actions) + in-Coq differential correspondence"),
+ "C01": dict(
+   text="Proved in Coq over any commutative *-ring, for every dimension, every number of bath components and (index by index) every "
+        "time index: the Redfield assembly loop is traceless with NO hypothesis on the operators handed to it; with K_m real and "
+        "Lambda_m^dagger as the code builds it the tensor commutes with Hermitian conjugation; the time-dependent assembly (which "
+        "writes K where K^T belongs) is traceless always, Hermiticity-preserving and equal to the time-independent assembly for "
+        "real symmetric K_m; Lindblad forms (real operators, real rates); rate-only tensors completed by updateStructure (exact "
+        "precondition stated) incl. Foerster with the repaired pure dephasing h_a + conj h_b; adding Foerster rates to a Redfield "
+        "tensor, sums and real multiples; secularisation keeps exactly R[a,a,b,b] and R[a,b,a,b] unchanged, zeroes every other "
+        "element and keeps both identities; the two-pass basis transformation keeps the trace identity for any invertible S and "
+        "Hermiticity for any unitary S (real orthogonal as a special case) = 'in every basis'. Refutation witness for the pinned "
+        "pure dephasing h_a + h_b (repaired by a fix: commit; a second fix: repairs the cut-off option of the Foerster tensor). "
+        "Validated only: that eigh returns an orthogonal S and K_m stay real symmetric after S^T K S (observed through the "
+        "identities on every end-to-end tensor, 1e-10 relative).",
+   note=TB + "All C01 theorems closed under the global context. Tie: the real kernels (_loopit, both _convert_operators_2_tensor, "
+        "LindbladForm, secularize x4 code paths, transform x4, operator-form apply, updateStructure, add_dephasing static/TD) on "
+        "Gaussian-integer inputs compared with = inside Coq; end to end (random aggregates x theories x options) the tensor is compared "
+        "(1e-12 relative) with the model fed the run's own K_m, Lambda_m / rate matrix / Redfield part. Modified Redfield and "
+        "TDRedfieldFoerster cannot be built on the pinned tree (TypeError / not offered) and are counted as unavailable, not judged.",
+   design="7/C01", technique="Coq proof (ring algebra over an abstract *-ring, sums by induction) + in-Coq differential correspondence (exact on Gaussian integers, 1e-12 end to end)"),
 }
 NOT_YET = {}
 def main():
